@@ -300,6 +300,20 @@ def _fail(out, key, what):
     out['fails'].append((key, what))
 
 
+def check_space(c, ps, t, out):
+    """hypotheses of c14_dirichlet_value_zero on the object: the solver's own radial space is the GENERAL clamped space
+    (never the uniform-cubic fast path, where S(xmin) = (c_0 + 4 c_1 + c_2)/6), phi is evaluated on it"""
+    T, p = t['T'], t['p']
+    out['n_or'] += 1
+    ok = (not ps._rspline.cubic_uniform) and (ps._real_spline.basis is ps._rspline) and (ps._spline.basis is ps._rspline) \
+        and len(T) == t['nc'] + 2 * p + 1 and t['nb'] == len(T) - p - 1 \
+        and all(T[j] == T[p] for j in range(p + 1)) and all(T[j] == T[-1] for j in range(len(T) - 1 - p, len(T))) \
+        and all(T[j] < T[j + 1] for j in range(p, len(T) - 1 - p))
+    if not ok:
+        _fail(out, 'DiffEqSolver.__init__:radial-space', 'the radial space of the solver is not the general clamped space on its breaks '
+              '(cubic_uniform %r, knots %s)' % (ps._rspline.cubic_uniform, [float(x) for x in T]))
+
+
 def check_quadrature(c, ps, t, out):
     """the rule of every cell integrates x^j, j < 2 n, over the cell (n = degree//2 + 1)"""
     br = fr(ps._rspline.breaks)
@@ -589,6 +603,7 @@ def case_stage(c):
         from pygyro.splines import make_knots
         if t['T'] != fr(make_knots(np.array([float(qparse(b)) for b in c['breaks']]), c['p'], False)):
             _fail(out, 'DiffEqSolver.__init__:knots', 'the radial space of the solver is not the one passed')
+    check_space(c, ps, t, out)
     check_quadrature(c, ps, t, out)
     sr, er = check_ranges(c, ps, t, out)
     nodes = oracle_nodes(t)
@@ -1160,11 +1175,17 @@ def run():
                'max_matrix_error_over_bound': round(worst_mat, 4), 'max_quadrature_defect_uniform': worst_quad,
                'max_manufactured_relative_error_code': worst_manu, 'coq_vm_compute_crosschecked': len(dense_samples),
                'matrix_bound': 'TOLF=%g * (nq (p+1) + 8 p + 16) * 2^-53 * sum|terms|' % TOLF},
-        uncovered=['S(r_min) = c_0 and S(r_max) = c_last (clamped end values of the B-spline basis) are not proved in Coq: the zero boundary '
-                   'COEFFICIENTS are proved (c14_dirichlet_zero), the zero boundary VALUES are tested on every solve',
-                   'exactness for manufactured polynomial solutions is tested (exactly on the model with a rational rule, under a '
-                   'condition-scaled bound on the code), not proved',
+        uncovered=['manufactured polynomial solutions: proved is the algebraic core (c14_manufactured_core: a coefficient vector whose spline '
+                   'satisfies the strong equation at the quadrature points and the quadrature-level integration by parts IS the vector '
+                   'returned; c14_poly_at_nodes: the Marsden coefficients of a polynomial of degree <= p give its values at the points). '
+                   'Hypotheses not discharged in Coq: the quadrature-level integration by parts (exactness of the rule for the degree of the '
+                   'integrands + continuity of B_a + vanishing boundary term) and that the derivative basis applied to the Marsden '
+                   'coefficients gives u\' at the points; both are tested (exactly on the model with a rational rule, under a '
+                   'condition-scaled bound on the code)',
                    'that the Gauss-Legendre tables of numpy are the Gauss-Legendre rule is tested (moments of every cell), not proved',
+                   'the uniform-cubic evaluator is not interpolatory at the ends (S(xmin) = (c_0+4c_1+c_2)/6, c08_cubic_end_eval): '
+                   'c14_dirichlet_value_zero is about the general clamped space, which is the one DiffEqSolver always builds and evaluates on '
+                   '(checked on every object: check_space)',
                    'gk_phi = value of self._rspline[a].eval (unit coefficient vector through nu_eval_spline_1d) is tied by the exact '
                    'comparison of the matrices, not by a Coq lemma'])
 
